@@ -182,7 +182,8 @@ def check(env, rep, tier):
             ok_true = ok_false = True
             n_true = 0
             cf_calls = []
-            for entry_variant in (1, 0):
+            n_pinned = bad_pinned = 0
+            for entry_variant, pin_code in ((1, False), (0, False), (1, True)):
                 I = new_interp(prog)
                 I.no_join_bodies.add(af["id"])
                 gargs = (("param", "Endpoint"),)
@@ -192,6 +193,15 @@ def check(env, rep, tier):
                 err = I.mat(st, prog.ty(af["locals"][2]["ty"], subst), "error")
                 if isinstance(err, StructV):
                     err = StructV([I.mat(st, f.ty, "error.%d" % i) if isinstance(f, TopV) else f for i, f in enumerate(err.fields)])
+                    ci_ = fidx(prog, "error::HandlingError", "code")
+                    cv_ = err.fields[ci_] if ci_ is not None else None
+                    if pin_code and isinstance(cv_, EnumV) and 1 in cv_.variants:
+                        # third shape: a reply is prepared and the error carries a code (any ResponseType): failure may not be reported
+                        fl = list(err.fields)
+                        fl[ci_] = EnumV(cv_.path, {1: cv_.variants[1]}, cv_.ty)
+                        err = StructV(fl)
+                    elif pin_code:
+                        continue
                 R = {n: fidx(prog, "request::CoapRequest", n) for n in ("message", "response", "source")}
                 rty = prog.ty(af["locals"][1]["ty"], subst)[2]
                 I.ensure(st, a0.place, rty, "self")
@@ -228,6 +238,11 @@ def check(env, rep, tier):
                     rv = I.as_int(s, rv, (1, False), "ret")
                     after = I.read(s, a0.place)
                     resp = after.fields[R["response"]]
+                    if pin_code:
+                        n_pinned += 1
+                        if rv.aff != Aff.const(1):
+                            bad_pinned += 1
+                        continue
                     if rv.aff == Aff.const(1):
                         n_true += 1
                         if entry_variant == 0:
@@ -289,6 +304,9 @@ def check(env, rep, tier):
                    "(options the handler had set are lost or altered)" % touch, site6)
             rep.ob("C07.6", "true-path", ok_true and n_true >= 1,
                    "apply_from_error: a path returning true does not (only) set code := Response(error.code), Content-Format and payload := error.message on an existing response", site6)
+            rep.ob("C07.6", "failure-only-without-reply-or-code", n_pinned >= 1 and bad_pinned == 0,
+                   "apply_from_error: with a reply prepared and an error that carries a code (of any ResponseType), %d of %d paths do not report success: "
+                   "failure is reported although there is a response and a code to apply" % (bad_pinned, n_pinned), site6)
             rep.ob("C07.6", "false-path", ok_false, "apply_from_error: a path returning false modifies the reply", site6)
             okcf = bool(cf_calls) and all(isinstance(v, EnumV) and [prog.adts["packet::ContentFormat"]["variants"][k]["name"] for k in v.variants] == ["TextPlain"] for v in cf_calls)
             rep.ob("C07.6", "content-format", okcf, "apply_from_error does not mark the diagnostic payload as text/plain", site6)
